@@ -55,8 +55,9 @@ class Script:
     rng = asarr(rng)
     obs = np.array([uf('obs0', rng, i) for i in range(2)], dtype=object)
     ps = Struct('PS', {'q': np.array([uf('ps0', rng, i) for i in range(3)], dtype=object)})
-    return self.I.apply(self.State, [], dict(pipeline_state=ps, obs=obs, reward=Rat.lift(0), done=Rat.lift(0),
-                                             metrics={'m': Rat.lift(0)}, info={}))
+    # the Env interface does not promise a zero reward or zero metrics at reset (an env may report its initial height, ...)
+    return self.I.apply(self.State, [], dict(pipeline_state=ps, obs=obs, reward=uf('rew0', rng), done=Rat.lift(0),
+                                             metrics={'m': uf('metric0', rng)}, info={}))
 
   def step(self, state, action):
     o, a = state.f['obs'], asarr(action)
